@@ -207,6 +207,15 @@ Second generation (class GenR; Gen/CommitmentPolicyGen.v): functions over struct
                function, any other way out of the loop is refused;
                `for (k, e) in m.into_iter() { data.insert(k, e); }`: the entries of the local map in key order inserted
                into the locked map (fold_left of bmap_insert), the local map is gone afterwards.
+               For CloudKVVStore<L> with L = MemoryKVVStore (put_with_version / put / delete; the record is the local
+               store, the commit log `Option<BTreeMap<..>>` and the poisoned flag of its mutex):
+               `let [mut] g = self.commit_log.lock().unwrap();` (Trap when poisoned), `let log = g.as_mut().expect("..");`
+               (Trap when None; log names the map inside the option, `log.insert(..)` ends up in the option on Ok(())),
+               `self.local.m(..)?` for the translated readers get_version / get of the memory store (allowed while the
+               guard of the commit log is alive: another mutex), `opt.expect("..")` on an entry option (Trap when None),
+               `e.0` / `e.1` of an entry, `if let Some(v) = <Option<u64>> {..}`, `_` in a pair pattern, `.cloned()`;
+               here operations that can panic under the guard are accepted - the poisoning such a panic causes is NOT
+               represented (a panic is Trap, without a state).
   refused    : a Rust binder whose name the generated text uses itself (prof, warn, policy, Val, t<digits>, gen_.., ..), a
                `let` that shadows a variable in scope, `return`, `else`
                branches of statements, `match`, `&mut`, closures anywhere else, struct literals, everything not listed.
@@ -303,6 +312,8 @@ def norm_type(t, known=None):
                 return "kvres:unit"
             if t == "Result<Option<u64>,Error>":
                 return "kvres:opt_u64"
+            if t == "Result<Option<(u64,Vec<u8>)>,Error>":
+                return "kvres:opt_entry"
             if t == "Vec<KVV>":
                 return "vec:kvv"
             if t == "BTreeMap<String,(u64,Vec<u8>)>":
@@ -4255,8 +4266,9 @@ class GenKV:
     `if let` is read in each branch, a `return` drops it."""
     LOGS = ("error", "warn", "info", "debug", "trace")
 
-    def __init__(self, owner, methods):
-        self.owner, self.methods = owner, methods
+    def __init__(self, owner, methods, local=None):
+        """local: (owner, methods) of the store behind the field `local` (CloudKVVStore<MemoryKVVStore>), or None"""
+        self.owner, self.methods, self.local = owner, methods, local
         self.tmp = 0
 
     def fresh(self):
@@ -4276,7 +4288,7 @@ class GenKV:
         return x
 
     def emit(self, binds, k):
-        if binds and self.lockvar:
+        if binds and self.lockvar and not self.local:
             raise GenError("fn %s: an operation that can panic while the guard of the map is alive is outside the fragment" % self.cur["name"])
         for x, code, kind in reversed(binds):
             k = "%s %s %s ;;\n%s" % (x, "<-?" if kind == "tryR" else "<-", code, k)
@@ -4305,6 +4317,27 @@ class GenKV:
             if t1 == "bytes" and e[1] in ("==", "!="):
                 return b1 + b2, ("(bytes_eqb %s %s)" if e[1] == "==" else "(negb (bytes_eqb %s %s))") % (c1, c2), "bool"
             raise GenError("%s on %s is outside the fragment" % (e[1], t1))
+        if k == "field" and e[2] in ("0", "1"):
+            b, c, t = self.expr(e[1], env)
+            if t != "entry":
+                raise GenError(".%s of a %s" % (e[2], t))
+            return b, "(%s %s)" % ("fst" if e[2] == "0" else "snd", c), "u64" if e[2] == "0" else "bytes"
+        if k == "try" and self.local and e[1][0] == "mcall" and e[1][1] == ("field", ("var", "self"), "local") \
+                and e[1][2] in self.local[1] and self.local[1][e[1][2]]["ret"] in ("kvres:opt_u64", "kvres:opt_entry"):
+            # a reader of the local store; the guard of the commit log may be alive (another mutex)
+            m2 = self.local[1][e[1][2]]
+            if len(e[1][3]) != len(m2["params"]):
+                raise GenError("call of local.%s with %d arguments" % (e[1][2], len(e[1][3])))
+            bs, cs = [], []
+            for a, (pn, pt) in zip(e[1][3], m2["params"]):
+                b, c, t = self.expr(a, env)
+                if t != pt:
+                    raise GenError("argument %s of local.%s: %s given, %s expected" % (pn, e[1][2], t, pt))
+                bs += b
+                cs.append(c)
+            x = self.fresh()
+            return bs + [(x, "gen_%s_%s prof (%s_local self) %s" % (self.local[0], e[1][2], self.owner, " ".join(cs)), "tryR")], x, \
+                "opt_u64" if m2["ret"] == "kvres:opt_u64" else "opt:entry"
         if k == "tuple" and len(e[1]) == 2:
             b1, c1, t1 = self.expr(e[1][0], env)
             b2, c2, t2 = self.expr(e[1][1], env)
@@ -4322,6 +4355,17 @@ class GenKV:
             return bs + [(x, "gen_%s_%s prof self %s" % (self.owner, e[1][2], " ".join(cs)), "tryR")], x, "opt_u64"
         if k == "mcall":
             recv, name, args = e[1], e[2], e[3]
+            if name == "cloned" and not args:
+                b, c, t = self.expr(recv, env)
+                if t != "opt:entry":
+                    raise GenError("cloned on a %s" % t)
+                return b, c, t
+            if name == "expect" and len(args) == 1 and args[0][0] == "str" and self.local:
+                b, c, t = self.expr(recv, env)               # a panic when the option is None
+                if t != "opt:entry":
+                    raise GenError("expect on a %s" % t)
+                x = self.fresh()
+                return b + [(x, "expect_some %s" % c, "plain")], x, "entry"
             if name == "to_string" and not args:
                 b, c, t = self.expr(recv, env)
                 if t != "str":
@@ -4378,6 +4422,10 @@ class GenKV:
         return bs, cs
 
     def store(self):
+        if self.local:
+            # the commit log after the call: the map named by as_mut() inside the option, else the option as it was
+            log = "(Some %s)" % self.logvar if self.logvar else self.lockvar
+            return "(mk_%s (%s_local self) %s false)" % (self.owner, self.owner, log) if log else "self"
         return "(mk_%s %s)" % (self.owner, self.lockvar) if self.lockvar else "self"
 
     def ret(self, e, env):
@@ -4396,6 +4444,11 @@ class GenKV:
                     raise GenError("a call of self.%s while the guard of the map is alive (a deadlock) is outside the fragment" % e[2])
                 bs, cs = self.args(e[2], e[3], env)
                 return self.emit(bs, "gen_%s_%s prof self %s" % (self.owner, e[2], " ".join(cs)))
+        if m["ret"] == "kvres:opt_entry" and e[0] == "call" and e[1] == "Ok" and len(e[2]) == 1:
+            b, c, t = self.expr(e[2][0], env)
+            if t != "opt:entry":
+                raise GenError("fn %s returns Ok of a %s" % (m["name"], t))
+            return self.emit(b, "Val (OkR %s)" % c)
         if m["ret"] == "kvres:opt_u64" and e[0] == "call" and e[1] == "Ok" and len(e[2]) == 1:
             b, c, t = self.expr(e[2][0], env)
             if t != "opt_u64":
@@ -4462,7 +4515,26 @@ class GenKV:
             return self.stmts(rest, tail, env)              # logging: no effect on the store or the answer
         if s[0] == "let" and isinstance(s[1], str) and s[2] is None:
             x, e = s[1], s[3]
-            if e == ("mcall", ("mcall", ("field", ("var", "self"), "data"), "lock", []), "unwrap", []):
+            if self.local and e == ("mcall", ("mcall", ("field", ("var", "self"), "commit_log"), "lock", []), "unwrap", []):
+                # the guard of the commit log: a poisoned mutex panics
+                if self.lockvar:
+                    raise GenError("a second lock() (a deadlock) is outside the fragment")
+                self.binder(x, env)
+                env2 = dict(env)
+                env2[x] = "opt:bmap"
+                self.lockvar = x
+                return "if (%s_commit_log_poisoned self)\nthen Trap\nelse (let %s := (%s_commit_log self) in\n%s)" % (
+                    self.owner, x, self.owner, self.stmts(rest, tail, env2))
+            if self.local and self.lockvar and not self.logvar and e[0] == "mcall" and e[2] == "expect" and len(e[3]) == 1 \
+                    and e[3][0][0] == "str" and e[1] == ("mcall", ("var", self.lockvar), "as_mut", []):
+                # let log = guard.as_mut().expect(".."): the map inside the option (a panic when there is none);
+                # what is inserted into it is in the option when the function returns
+                self.binder(x, env)
+                env2 = dict(env)
+                env2[x] = "bmap"
+                self.logvar = x
+                return "%s <- expect_some %s ;;\n%s" % (x, self.lockvar, self.stmts(rest, tail, env2))
+            if not self.local and e == ("mcall", ("mcall", ("field", ("var", "self"), "data"), "lock", []), "unwrap", []):
                 if self.lockvar:
                     raise GenError("a second lock() (a deadlock) is outside the fragment")
                 self.binder(x, env)
@@ -4482,30 +4554,43 @@ class GenKV:
             a1, a2 = s[1][1]
             env2 = dict(env)
             env2[self.binder(a1, env)] = "u64"
-            env2[self.binder(a2, env2)] = "bytes"
-            save = (self.lockvar, self.dirty)
+            if a2 != "_":
+                env2[self.binder(a2, env2)] = "bytes"
+            save = (self.lockvar, self.dirty, self.logvar)
             inside = self.stmts(s[3][0] + rest, tail, env2)
-            self.lockvar, self.dirty = save
+            self.lockvar, self.dirty, self.logvar = save
             after = self.stmts(rest, tail, env)
             return self.emit(b, "match %s with\n| Some (%s, %s) => (%s)\n| None => (%s)\nend" % (c, a1, a2, inside, after))
+        if s[0] == "iflet_stmt" and isinstance(s[1], str) and s[3][1] is None:
+            b, c, t = self.expr(s[2], env)
+            if t != "opt_u64":
+                raise GenError("if let Some(..) on a %s" % t)
+            env2 = dict(env)
+            env2[self.binder(s[1], env)] = "u64"
+            save = (self.lockvar, self.dirty, self.logvar)
+            inside = self.stmts(s[3][0] + rest, tail, env2)
+            self.lockvar, self.dirty, self.logvar = save
+            after = self.stmts(rest, tail, env)
+            return self.emit(b, "match %s with\n| Some %s => (%s)\n| None => (%s)\nend" % (c, s[1], inside, after))
         if s[0] in ("if_stmt", "ifelse_stmt") and s[2][1] is None and (s[0] == "if_stmt" or s[3][1] is None):
             b, c, t = self.expr(s[1], env)
             if t != "bool":
                 raise GenError("if on a %s" % t)
-            save = (self.lockvar, self.dirty)
+            save = (self.lockvar, self.dirty, self.logvar)
             then_t = self.stmts(s[2][0] + rest, tail, env)
-            self.lockvar, self.dirty = save
+            self.lockvar, self.dirty, self.logvar = save
             else_t = self.stmts((s[3][0] if s[0] == "ifelse_stmt" else []) + rest, tail, env)
             return self.emit(b, "if %s\nthen (%s)\nelse (%s)" % (c, then_t, else_t))
         if s[0] == "expr" and s[1][0] == "mcall" and s[1][1][0] == "var" and s[1][2] == "insert" and len(s[1][3]) == 2 \
-                and (s[1][1][1] == self.lockvar or s[1][1][1] in self.localmaps) and s[1][1][1] in env \
+                and ((s[1][1][1] == self.lockvar and not self.local) or s[1][1][1] == self.logvar or s[1][1][1] in self.localmaps) \
+                and s[1][1][1] in env \
                 and (not self.inloop or s[1][1][1] == self.inloop):
             mv = s[1][1][1]
             b1, c1, t1 = self.expr(s[1][3][0], env)
             b2, c2, t2 = self.expr(s[1][3][1], env)
             if (t1, t2) != ("str", "entry"):
                 raise GenError("insert of a %s under a %s" % (t2, t1))
-            if mv == self.lockvar:
+            if mv in (self.lockvar, self.logvar):
                 self.dirty = True
             return self.emit(b1 + b2, "let %s := bmap_insert %s %s %s in\n%s" % (mv, mv, c1, c2, self.stmts(rest, tail, env)))
         raise GenError("statement %r is outside the fragment" % (s,))
@@ -4534,16 +4619,16 @@ class GenKV:
         return sorted(set(out))
 
     def method(self, m):
-        if m["selfmode"] != "ref" or m["ret"] not in ("kvres:unit", "kvres:opt_u64"):
+        if m["selfmode"] != "ref" or m["ret"] not in ("kvres:unit", "kvres:opt_u64", "kvres:opt_entry"):
             raise GenError("fn %s: only `&self` methods that return Result<(), Error> / Result<Option<u64>, Error>" % m["name"])
-        self.cur, self.lockvar, self.dirty, self.tmp, self.inloop, self.localmaps = m, None, False, 0, None, set()
+        self.cur, self.lockvar, self.dirty, self.tmp, self.inloop, self.localmaps, self.logvar = m, None, False, 0, None, set(), None
         env = {}
         for x, t in m["params"]:
             if t not in ("str", "u64", "bytes", "vec:kvv"):
                 raise GenError("fn %s: parameter of type %s" % (m["name"], t))
             env[self.binder(x, env)] = t
         body = self.stmts(m["body"][0], m["body"][1], env)
-        rt = self.owner if m["ret"] == "kvres:unit" else "(option N)"
+        rt = {"kvres:unit": self.owner, "kvres:opt_u64": "(option N)", "kvres:opt_entry": "(option (N * list N))"}[m["ret"]]
         return "Definition gen_%s_%s (prof : profile) (self : %s) %s : trap (result %s) :=\n%s." % (
             self.owner, m["name"], self.owner, " ".join("(%s : %s)" % (x, self.coq_type(t)) for x, t in m["params"]), rt, indent(body))
 
@@ -4571,7 +4656,7 @@ def _generate_kvv(repo):
     if "pubstructKVV(pubString,pub(u64,Vec<u8>));" not in kv or \
             "pubfninto_inner(self)->(String,(u64,Vec<u8>)){(self.0,self.1)}" not in kv:
         raise GenError("kvv.rs: KVV is not (String, (u64, Vec<u8>)) with into_inner = (self.0, self.1)")
-    plan = ["get_version", "put_with_version", "put", "delete", "put_batch"]
+    plan = ["get_version", "get", "put_with_version", "put", "delete", "put_batch"]
     methods, texts = {}, {}
     for n in plan:
         texts[n] = method_source(src, None, n, header="impl KVVStore for MemoryKVVStore")
@@ -4582,8 +4667,30 @@ def _generate_kvv(repo):
     for n in plan:
         out.append("(* MemoryKVVStore::%s (kvv/memory.rs, `impl KVVStore for MemoryKVVStore`)\n%s *)\n%s" % (n, "\n".join(
             "   " + l for l in texts[n].strip().replace("(*", "( *").replace("*)", "* )").splitlines()), g.method(methods[n])))
+    # CloudKVVStore<L> with L = MemoryKVVStore (vls-persist/src/kvv/cloud.rs)
+    csrc = open(os.path.join(repo, "vls-persist", "src", "kvv", "cloud.rs")).read()
+    cbl = re.sub(r"\s+", "", blank(csrc))
+    if "pubstructCloudKVVStore<L:KVVStore>{local:L,commit_log:Mutex<Option<BTreeMap<String,(u64,Vec<u8>)>>>,}" not in cbl:
+        raise GenError("struct CloudKVVStore<L> is not { local: L, commit_log: Mutex<Option<BTreeMap<String, (u64, Vec<u8>)>>> }")
+    if "usealloc::collections::BTreeMap;" not in cbl or "usecrate::kvv::{Error,KVVStore,KVV};" not in cbl:
+        raise GenError("cloud.rs: BTreeMap is not alloc::collections::BTreeMap, or Error not crate::kvv::Error")
+    cplan = ["put_with_version", "put", "delete"]
+    cmethods, ctexts = {}, {}
+    for n in cplan:
+        ctexts[n] = method_source(csrc, None, n, header="impl<L: KVVStore> KVVStore for CloudKVVStore<L>")
+        cmethods[n] = P(lex(ctexts[n]), known).fn()
+    gc = GenKV("CloudKVVStore", cmethods, local=("MemoryKVVStore", methods))
+    out.append("(* struct CloudKVVStore<L> (cloud.rs) with L = MemoryKVVStore: the local store, the commit log behind its mutex, and\n"
+               "   whether that mutex is poisoned (lock().unwrap() then panics).  A panic of a translated function is Trap: the\n"
+               "   poisoning it causes is not represented *)\n"
+               "Record CloudKVVStore := mk_CloudKVVStore {\n  CloudKVVStore_local : MemoryKVVStore;\n"
+               "  CloudKVVStore_commit_log : option (bmap (N * list N));\n  CloudKVVStore_commit_log_poisoned : bool\n}.")
+    for n in cplan:
+        out.append("(* CloudKVVStore::%s (kvv/cloud.rs, `impl<L: KVVStore> KVVStore for CloudKVVStore<L>`, L = MemoryKVVStore)\n%s *)\n%s" % (
+            n, "\n".join("   " + l for l in ctexts[n].strip().replace("(*", "( *").replace("*)", "* )").splitlines()), gc.method(cmethods[n])))
     text = ("(** GENERATED by tools/gen_rustfn.py - do not edit.  Statement-by-statement translation of\n"
-            "      MemoryKVVStore::get_version, ::put_with_version, ::put, ::delete, ::put_batch (vls-persist/src/kvv/memory.rs).\n"
+            "      MemoryKVVStore::get_version, ::get, ::put_with_version, ::put, ::delete, ::put_batch (vls-persist/src/kvv/memory.rs)\n"
+            "      and CloudKVVStore::put_with_version, ::put, ::delete (kvv/cloud.rs, L = MemoryKVVStore).\n"
             "    The store is its BTreeMap<String, (u64, Vec<u8>)> (Base/Rust.v bmap: sorted by the byte order of the keys);\n"
             "    Ok(()) carries the store the call leaves, Err(Error::VersionMismatch) is ErrR \"VersionMismatch\" and leaves\n"
             "    the store as it was (no translated function writes before it refuses). *)\n"
@@ -4591,7 +4698,7 @@ def _generate_kvv(repo):
     outp = os.path.join(ROOT, "coq", "theories", "Gen", "KvvGen.v")
     if not os.path.exists(outp) or open(outp).read() != text:
         open(outp, "w").write(text)
-    return {"translated": ["MemoryKVVStore::%s" % n for n in plan]}
+    return {"translated": ["MemoryKVVStore::%s" % n for n in plan] + ["CloudKVVStore::%s" % n for n in cplan]}
 
 
 def generate_payment_summaries(repo):
